@@ -217,6 +217,46 @@ class Gen:
             items.append(["compete", names[i], 2 if same else 1])
         return {"id": self._id("multi-%s%s" % ("same" if same else "diff", "-noauto" if noauto else "")), "noauto": noauto, "maxretries": 0, "items": items}
 
+    def ustep(self):
+        """Unlock with its request / its reply in flight (or asleep in rpcWithRetry after an Unavailable first attempt) while
+        virtual time passes renew ticks: the renewer must already be stopped when the call begins."""
+        r = self.r
+        T = self.goodT()
+        Iv = self.I(T)
+        var = r.choice(["pre", "post", "post", "both", "retry", "retry"])
+        items = [[r.choice(["lock", "try"]), "a", T, 1]]
+        other = r.random() < 0.4
+        if other:
+            items.append(["lock", "b", self.goodT(), 1])
+        ticks = r.choice([0, 1, 2])
+        if ticks:
+            items.append(["adv", ticks * Iv * SEC])
+        d = self.k["retry_delay"]
+        if var == "retry":
+            # the next tick falls inside the sleep between the two attempts
+            items.append(["adv", max(0, Iv * 1000 - r.choice([500, 1000, max(1, d * 1000 - 1)])) * MS])
+            items += [["ufault", 0], ["ubegin", 0], ["adv", d * SEC + r.choice([0, 0, 200]) * MS], ["usend", 0]]
+            if r.random() < 0.5:
+                items.append(["adv", r.choice([1, Iv]) * SEC])
+            items.append(["uend", 0])
+        else:
+            if r.random() < 0.15:
+                items += [["hold", 0, r.choice(["pre", "post"])], ["adv", Iv * SEC]]     # F-STOPDROP through a stepped Unlock
+            else:
+                items.append(["adv", r.choice([0, 1, max(1, Iv // 2) * 1000, Iv * 1000 - 1]) * MS])
+            fly = lambda: ["adv", r.choice([1, 2, 3]) * Iv * SEC + r.choice([0, 1, 700]) * MS]  # noqa
+            items.append(["ubegin", 0])
+            if var in ("pre", "both"):
+                items.append(fly())
+            items.append(["usend", 0])
+            if var in ("post", "both"):
+                items.append(fly())
+            items.append(["uend", 0])
+        items += [["step", 0], ["step", 0], ["probe"], ["adv", (2 * Iv + 1) * SEC], ["probe"], ["compete", "a", 1]]
+        if other:
+            items += [["adv", 2 * 90 * SEC], ["probe"]]
+        return {"id": self._id("ustep-" + var), "noauto": False, "maxretries": 1 if var == "retry" else 0, "items": items}
+
     def edge(self):
         """Short timeouts (at most MinRenewSeconds: excluded by the property), no auto-renew, refused TryLocks, no timeout."""
         r = self.r
@@ -256,6 +296,7 @@ def generate(ctx, consts):
     quick = ctx.tier == "quick"
     cases = []
     n_alive, n_stop, n_multi, n_edge = (60, 120, 60, 30) if quick else (1200, 2400, 1200, 400)
+    n_ustep = 60 if quick else 1200
     for _ in range(n_alive):
         cases.append(g.alive())
     for _ in range(n_stop):
@@ -264,6 +305,8 @@ def generate(ctx, consts):
         cases.append(g.multi())
     for _ in range(n_edge):
         cases.append(g.edge())
+    for _ in range(n_ustep):
+        cases.append(g.ustep())
     # retry rule: budgets 0-3 x every status code x 0..budget+1 leading Unavailable; the rpc kind rotates (quick) / all kinds (thorough)
     kinds = ["lock", "try", "unlock", "renew"]
     i = 0
@@ -592,6 +635,11 @@ def analyse(case, r, consts):
                 h = holds.get(int(f[2]))
                 if h and h.unl_call is None:
                     h.unl_call = (idx, int(f[3]))
+            elif f[0] == "ucall":          # Unlock run in steps: the call has begun
+                h = holds.get(int(f[1]))
+                if h and h.unl_call is None:
+                    h.unl_call = (idx, int(f[2]))
+                end_t = max(end_t, int(f[2]))
             elif f[0] == "uret":
                 h = holds.get(int(f[1]))
                 if h and h.uret is None:
@@ -1068,14 +1116,14 @@ def run(ctx):
     cov["traces_validated_against_impl"] = cov["ties"]["clientdiff"]["compared_with_model"]
     cov["exhaustive"] = False
     cov["rule"] = ("corpus/client/*.json first, then cases from one random.Random(VERIF_SEED) stream: families alive (1-3 holds, idle for several lease lengths, Renews kept in flight "
-                   "for up to 500 ms, probes and competing TryLocks), stop (Unlock/Close with the renewer sleeping / about to send / inside Renew), multi (2-3 holds on the same and on "
+                   "for up to 500 ms, probes and competing TryLocks), stop (Unlock/Close with the renewer sleeping / about to send / inside Renew), ustep (Unlock run in steps: request kept before the server, reply kept after it, or first attempt Unavailable, while up to three renew ticks pass), multi (2-3 holds on the same and on "
                    "different names, unlocked one by one), edge (T <= MinRenewSeconds, no auto-renew, refused TryLocks, no timeout), timeouts from {5,10,11,29,30,31,45,90}; retry: "
                    "budgets 0-3 x 0..budget+1 leading Unavailable x every status code 0-16 and a non-status error, rpc kind rotating (quick) or all four (thorough), plus the renewer's own Renew. "
                    "Every case is executed on the REAL client in a synctest bubble and on the extracted model; the property oracle is evaluated on the real trace. "
                    "evaluations = cases executed on the real client; non-trivial schedule = at least 3 kinds of items and an idle period of >= 10 s, distinct = different item sequences "
                    "(with names, timeouts, stages); non-trivial retry case = at least 2 scripted outcomes, distinct = different (rpc, budget, outcomes)")
     samples = []
-    for want in ("stop-unlock-sleep", "stop-unlock-pre", "alive", "multi-diff", "retry-"):
+    for want in ("stop-unlock-sleep", "stop-unlock-pre", "ustep-post", "ustep-retry", "alive", "multi-diff", "retry-"):
         for v in verdicts:
             if want in v["id"] and v["ran"]:
                 r = real_g.get(v["id"]) or real_c.get(v["id"]) or {}
